@@ -41,6 +41,14 @@ for _t_ in TASKS:
     _t_.cover = False
     _t_.abstract_strings = getattr(_enc, "abstract_strings", False)
 
+# the last sentence of the statement - which MsgSeqNum goes into the header (allocated / kept for PossDupFlag=Y,
+# SequenceReset and raw mode) and what happens to the session counter - is the contract C05 proves on the real encode
+import C05_outbound as c05  # noqa: E402
+TASKS = TASKS[:-1] + [Task("encode[seqnum]", c05.encode_seqno_harness, c05.encode_cfg, [c05.ENC, "asyncfix.codec.Codec._addTag"]),
+                      Task("allocate_next_num_out", c05.alloc_harness, None, ["asyncfix.session.FIXSession.allocate_next_num_out"])] + TASKS[-1:]
+for _t_ in TASKS:
+    _t_.cover = False
+
 
 def violates(rp, obs):
     return bool(obs.get("violations"))
